@@ -173,6 +173,19 @@ func EnumFileSets(tier string) (sets []FileSet, rule string, snapshotCases int) 
 		// one snapshot set in the quick tier: a packet of the observed flow carries exactly the
 		// timestamp of the snapshot and the flow continues in the next capture
 		for _, set := range ref.Sets() {
+			if set.Name == "snap-mid" {
+				// a late capture (older than the newest snapshot) with a restart after every import: the
+				// snapshots on disk must be the ones the running service worked with
+				cuts, err := ref.SnapshotCuts(set)
+				if err != nil {
+					mc.Fatal("%v", err)
+				}
+				fs := FileSet{Files: ref.Case{Set: set.Name, Interleave: set.Interleaves[0], Link: "eth", Cuts: cuts}, Snap: true}
+				fs.Hists = append(fs.Hists, History{Batches: [][]int{{1}, {0}, {2}}, Restart: []bool{true, true}})
+				snapshotCases += len(fs.Hists)
+				sets = append(sets, fs)
+				continue
+			}
 			if set.Name != "snap-trigger" && set.Name != "snap-longlived" && set.Name != "snap-boundary-last" {
 				continue
 			}
